@@ -674,7 +674,7 @@ class AgainTask (Task):
     except StopIteration:
       # Subtask returned without yielding anything: no result, not an error
       pass
-    except Exception:
+    except BaseException:
       parent.task.re = sys.exc_info()
     else:
       while True:
@@ -682,7 +682,9 @@ class AgainTask (Task):
           try:
             v = yield nxt
             do_next = lambda: g.send(v)
-          except Exception as e:
+          except GeneratorExit:
+            raise
+          except BaseException as e:
             exc_info = sys.exc_info()
             do_next = lambda: g.throw(*exc_info)
           try:
@@ -690,7 +692,7 @@ class AgainTask (Task):
           except StopIteration:
             # Iterator just ran out, so...
             break
-          except Exception:
+          except BaseException:
             parent.task.re = sys.exc_info()
             break
         else:
